@@ -374,3 +374,60 @@ func RandomGenesis(u *Universe, r *vlib.Rng) Genesis {
 }
 
 var _ = ecies.PublicKey{}
+
+// History is a pre-generated block sequence.
+type History struct {
+	U      *Universe
+	G      Genesis
+	Blocks [][]Tx
+	Opts   GenOpts
+}
+
+// GenHistory deterministically generates history h of a stream.
+func GenHistory(seed, stream uint64, h, nblocks, nkeys int, tweak func(r *vlib.Rng, u *Universe, o *GenOpts, g *Genesis)) *History {
+	r := vlib.NewRng(seed, stream, uint64(h))
+	u := NewUniverse(seed+uint64(h%5), nkeys, nkeys)
+	g := RandomGenesis(u, r)
+	opts := DefaultOpts()
+	opts.Targeted = []string{"", "dkgvotes", "validators", "configs"}[h%4]
+	if opts.Targeted == "dkgvotes" && nkeys >= 5 {
+		g.Keypers = r.Perm(len(u.Keys))[:4+r.Intn(nkeys-4)]
+		g.Threshold = uint64(1 + r.Intn(len(g.Keypers)/2))
+	}
+	if tweak != nil {
+		tweak(r, u, &opts, &g)
+	}
+	gen := NewGen(u, g, r.Split(), opts)
+	hist := &History{U: u, G: g, Opts: opts}
+	for b := 0; b < nblocks; b++ {
+		hist.Blocks = append(hist.Blocks, gen.NextBlock())
+	}
+	return hist
+}
+
+// Kind names the payload type of a transaction.
+func Kind(tx Tx) string {
+	switch {
+	case tx.Signer < 0:
+		return "raw"
+	case tx.Msg == nil:
+		return "nilmsg"
+	case tx.Msg.GetBatchConfig() != nil:
+		return "batchconfig"
+	case tx.Msg.GetBlockSeen() != nil:
+		return "blockseen"
+	case tx.Msg.GetCheckIn() != nil:
+		return "checkin"
+	case tx.Msg.GetDkgResult() != nil:
+		return "dkgresult"
+	case tx.Msg.GetPolyEval() != nil:
+		return "polyeval"
+	case tx.Msg.GetPolyCommitment() != nil:
+		return "polycommitment"
+	case tx.Msg.GetAccusation() != nil:
+		return "accusation"
+	case tx.Msg.GetApology() != nil:
+		return "apology"
+	}
+	return "emptymsg"
+}
